@@ -514,8 +514,8 @@ cancelled before poll number `k` of the call (`k` < the polls the call makes for
     first `k` messages — no CRC, no header update, no flush follow (the file header went out before it): the destination has
     seen only a prefix of the operations of the uncancelled call;
 (3) observed in the dry run (plain writer, `k` < number of messages): no destination operation at all and the writer state
-    untouched — the encoder is left on `io.Discard` by the code as pinned (finding KF-C09-ctx-discard, `C09_ctx_discard_witness`),
-    usable by the repaired code. -/
+    untouched — the encoder was left on `io.Discard` by the code as it was pinned (finding KF-C09-ctx-discard, `C09_ctx_discard_witness`;
+    repaired in /repo 4876fc8: `restoresWriter`). -/
 theorem C11_ctx_cancel_surfaces {σ : Type} (V : MsgValidator σ) (cc : CtxCfg) (F : Faults) (o : Opts) :
     (∀ (k : Nat) (e : Enc) (f : FitIn),
       (∀ ms', validateAll V V.init f.msgs = some ms' → k < ctxPolls e.w.kind ms'.length) →
